@@ -129,6 +129,19 @@ claim("C08",
       "Trusted: python ast; docs/reference.rst as the statement of documented defaults.",
       "DESIGN.md §4 C08")
 
+claim("C10",
+      "bounds proofs of the embedded C helpers (clang JSON AST, path-splitting abstract interpretation over linear "
+      "integer arithmetic, Fourier-Motzkin discharge) + dimension typing of helper call sites in the statement "
+      "tables + sibling agreement of C/C++ helper variants and of length producers/consumers",
+      "For the helper bodies the obligations offset>=0, length>=0, offset+length<=capacity of every memcpy/memset/"
+      "strncpy/subscript are generated from the current whelpers.py source in both language variants and all are "
+      "discharged (obligations == discharged is required) from the documented caller contracts; the contracts are in "
+      "turn discharged at every call site of the statement tables by a Len/Trim/Size/StrLen typing of the template "
+      "arguments. Also decides NUL/blank conventions, C vs C++ variant equality, Fortran-side trim+NUL wiring and "
+      "allocatable result lengths. Run-time behaviour of compiled code is not executed.",
+      "Trusted: clang 14 as parser; libc function meanings; helper contract table in checks/c10.py; no int overflow modelling.",
+      "DESIGN.md §4 C10")
+
 PENDING = "check not built yet in this session (fail-closed: not claimed until its rules run clean)"
-for _p in ["C01","C02","C03","C06","C10","C18"]:
+for _p in ["C01","C02","C03","C06","C18"]:
     na(_p, PENDING)
